@@ -544,8 +544,8 @@ package hermes
 //@   requires outn: 1 <= g.OUTN && g.OUTN <= g.N
 //@   requires drain: 0 <= g.DRAIDEP && g.DRAIDEP <= 21
 //@   requires crop: 0 <= g.AKF.Index && g.AKF.Index < 300
-//@   requires water: forall(k, 0, g.N+1, g.WG[0][k] > 0)
-//@   requires capacity: forall(k, 0, g.N+1, g.W[k] > 0)
+//@   requires water: forall(k, 0, g.N+1, g.WG[0][k] > 0 && g.WG[0][k] <= 1)
+//@   requires capacity: forall(k, 0, g.N+1, g.W[k] > 0 && g.W[k] <= 1)
 //@   requires surfacedrain: g.QDRAIN == 0 || g.FLUSS0 > 0
 // every division of the transport routine has a non-zero denominator under these preconditions (over the reals a division
 // by zero is where a NaN is born; found necessary by the encoder cross-check: with W == 0 the real routine returns NaN)
@@ -599,9 +599,9 @@ package hermes
 //@   define dnfos(z) = old(g.NFOS[z]) - g.NFOS[z]
 //@   define n2o(z) = dnaos(z) + dnfos(z) + l.DUMS[z] - g.DN[z]
 //@   requires depth: g.DZ.Index == 10 && 10 <= g.IZM && g.IZM <= 40
-//@   requires[C07,C06] soil: g.WMIN[0] < g.WRED && g.WRED <= g.W[0] && forall(k, 0, 4, 0 < g.WMIN[k] && g.WMIN[k] < g.WNOR[k] && g.WNOR[k] <= g.W[k] && g.W[k] <= g.PORGES[k] && g.WNOR[k] < g.PORGES[k])
+//@   requires soil: g.WMIN[0] < g.WRED && g.WRED <= g.W[0] && forall(k, 0, 4, 0 < g.WMIN[k] && g.WMIN[k] < g.WNOR[k] && g.WNOR[k] <= g.W[k] && g.W[k] <= g.PORGES[k] && g.WNOR[k] < g.PORGES[k])
 //@   requires[C07] temp: forall(k, 0, 5, g.TD[k] <= 45)
-//@   requires[C06] water: forall(k, 0, 4, 0 <= g.WG[0][k] && g.WG[0][k] <= g.PORGES[k]) && forall(k, 0, 5, g.TD[k] > 0-273)
+//@   requires water: forall(k, 0, 4, 0 <= g.WG[0][k] && g.WG[0][k] <= g.PORGES[k]) && forall(k, 0, 5, g.TD[k] > 0-273)
 //@   requires[C07] pools: forall(k, 0, 4, g.NAOS[k] >= 0 && g.NFOS[k] >= 0)
 //@   requires[C07] fert: g.UMS <= g.DSUMM && g.NH4UMS <= g.NH4Sum
 //@   ensures[C02,C07] slow: forall(z, 0, num(), g.NAOS[z] + g.MINAOS[z] == old(g.NAOS[z]) + old(g.MINAOS[z]))
